@@ -8,8 +8,66 @@ from gen import c06 as G
 
 
 def norm(line):
+    """projection of an output line onto what the property talks about: per-segment state, closed/open/ok,
+    attempts and their handshake type, negotiated values, decoded bytes. The error class / code of a
+    failure is not constrained by the property (ROBUSTNESS rule 4) and is projected out."""
     # "CRASH rc=3": the harness printed ERR:internal and left with _exit(3) while run_sharded was running that case alone
-    return "ERR:internal" if line.startswith("ERR:internal") or line == "CRASH rc=3" else line
+    if line.startswith("ERR:internal") or line == "CRASH rc=3":
+        return "ERR:internal"
+    if line == "HANG" or line == "CRASH rc=5":
+        return "HANG"
+    return re.sub(r"(?<=[:,])(f\d+\.[\d?]+|drop|gone)(?=[ ,]|$)", "closed", line)
+
+
+def used_script(c, line):
+    """tokens of the script the peer actually ran in the last attempt"""
+    if c["dir"] == "I":
+        sc = c["scripts"][0]
+    else:
+        kinds = re.findall(r"a\d+([pm]):", line)
+        if not kinds or len(c["scripts"]) < 2:
+            return []
+        sc = c["scripts"][0] if kinds[-1] == "p" else c["scripts"][1]
+    toks = []
+    for ph in sc.split("/"):
+        toks += [t for t in ph.rsplit("@", 1)[0].split(",") if t]
+    return toks
+
+
+def expect_closed(c, line):
+    """property clause 'a handshake for an unknown, inactive or own-id torrent, or any malformed
+    handshake, ends with that socket closed', decided from the SCRIPT alone (independent of the model):
+    returns (token, reason) if the peer's script is one the library must not turn into a connection"""
+    toks = used_script(c, line)
+    skey = None
+    for t in toks:
+        if t[0] == "S" and t[1:].isdigit():
+            skey = int(t[1:])
+            if skey in (2, 3):
+                return ("skey-%s-torrent" % ("inactive" if skey == 2 else "unknown"), "the obfuscated SKEY names a torrent that is %s" % ("not active" if skey == 2 else "not loaded"))
+        m = re.match(r"^[ecm]H(\d)(\d)(\d)$", t)
+        if m:
+            ht, idk = int(m.group(1)), int(m.group(2))
+            if idk == 1:
+                return ("own-id", "the handshake carries the library's own peer id")
+            if ht in (2, 3):
+                return ("hash-%s-torrent" % ("inactive" if ht == 2 else "unknown"), "the handshake names a torrent that is %s" % ("not active" if ht == 2 else "not loaded"))
+            if c["dir"] == "I" and skey is not None and ht != skey:
+                return ("mse-inner-hash-mismatch", "valid MSE for torrent kind %d but the inner BitTorrent handshake names torrent kind %d" % (skey, ht))
+            if c["dir"] == "O" and ht != 1:
+                return ("outgoing-hash-mismatch", "the peer answers a dial for torrent kind 1 with info hash of torrent kind %d" % ht)
+        m = re.match(r"^e:([0-9a-f]{16})([0-9a-f]{8})([0-9a-f]{4})$", t)
+        if m and c["dir"] == "I":
+            if int(m.group(1), 16) != 0:
+                return ("bad-vc", "ENCRYPT(VC) does not decrypt to eight zero bytes")
+            if int(m.group(2), 16) & 3 == 0:
+                return ("no-crypto-provide", "crypto_provide offers neither plaintext nor RC4")
+            if int(m.group(3), 16) > 512:
+                return ("pad-too-long", "len(PadC) > 512")
+        m = re.match(r"^V(\d+)\.(\d+)$", t)
+        if m and (int(m.group(1)) not in (1, 2) or int(m.group(2)) > 512):
+            return ("bad-crypto-select", "crypto_select is not exactly one offered method / len(PadD) > 512")
+    return None
 
 
 def parse_case(case):
@@ -67,6 +125,8 @@ def oracle(case, tag, line):
         return [("crash", "handshake bytes took the library down: " + line[:200])]
     if line.startswith("ERR:") or line == "BADCASE":
         return [("harness", "harness error: " + line[:200])]
+    if line == "HANG" or line == "CRASH rc=5":
+        return [("hang", "the implementation did not finish this scenario within the 30 s per-case watchdog")]
     c = parse_case(case)
     f = dict(x.split("=", 1) for x in line.split() if "=" in x)
     attempts = re.findall(r"a\d+[pm]?:(\S*)", line)
@@ -78,6 +138,9 @@ def oracle(case, tag, line):
     last = attempts[-1].split(",")[-1] if attempts and attempts[-1] else ""
     ok = last == "ok"
     alive = bool(re.match(r"^\d+\.\d+\.\d+$", last))
+    ec = expect_closed(c, line)
+    if ec and ok:
+        bad.append(("accepted-" + ec[0], "the handshake became a connection although " + ec[1]))
     if f.get("lib") == "late":
         bad.append(("unread-handshake-data-delayed", "data coalesced with the peer's handshake was only parsed after the peer sent another message (regression of /repo 5c4764e)"))
     if f.get("lib") == "bad":
@@ -129,7 +192,72 @@ def oracle(case, tag, line):
     return bad
 
 
+PROBE_TYPES = {"c06_ext_first_invalid": "N", "c06_ext_max_len": "N", "c06_dh_prime": "list N"}
+
+
+def probe_params(impl):
+    """run `harness --params` (constants of the COMPILED code), write coq/C06/ParamsProbe.v only if it
+    changed; returns ({name: value}, notes of the optional source-regex cross-check)"""
+    import os
+    out, err, rc = ltv.run_lines(impl, [], args=["--params"], timeout=120)
+    vals = {}
+    for l in out:
+        t = l.split()
+        if len(t) >= 2 and t[0].startswith("c06_"):
+            vals[t[0]] = [int(x) for x in t[1:]]
+    need = ["c06_part1_size", "c06_part2_size", "c06_handshake_size", "c06_read_message_size", "c06_enc_negotiation_size",
+            "c06_enc_pad_size", "c06_enc_pad_read_size", "c06_buffer_size", "c06_vc_length", "c06_dh_key_length",
+            "c06_pcb_read_buffer", "c06_ext_first_invalid", "c06_ext_max_len", "c06_dh_prime"]
+    if rc != 0 or any(n not in vals for n in need):
+        raise ltv.BuildError("C06 harness --params probe failed: %r %s" % (out[:3], err[-300:]))
+    lines = ["(* WRITTEN by props/c06.py from `harness/c06.cc --params` (compiled code) on every run. Do not edit. *)",
+             "From Coq Require Import NArith ZArith List.", "Import ListNotations.", "Module Params.", ""]
+    for n in need:
+        ty = PROBE_TYPES.get(n, "nat")
+        if ty == "list N":
+            lines.append("Definition %s : list N := [%s]." % (n, ";".join("%d%%N" % v for v in vals[n])))
+        else:
+            lines.append("Definition %s : %s := %d%%%s." % (n, ty, vals[n][0], ty))
+    lines += ["", "End Params.", ""]
+    txt = "\n".join(lines)
+    path = os.path.join(ltv.COQ, "C06", "ParamsProbe.v")
+    old = open(path).read() if os.path.exists(path) else None
+    if old != txt:
+        tmp = path + ".%d.tmp" % os.getpid()
+        with open(tmp, "w") as f:
+            f.write(txt)
+        os.replace(tmp, path)
+    notes = []
+    try:
+        import importlib.util
+        spec = importlib.util.spec_from_file_location("params_c06", os.path.join(ltv.VERIF, "gen", "params_c06.py"))
+        m = importlib.util.module_from_spec(spec)
+        spec.loader.exec_module(m)
+        from gen import params as GP
+        for ent in getattr(m, "CROSSCHECK", []):
+            name, rel, rx = ent[0], ent[1], ent[2]
+            conv = ent[4] if len(ent) > 4 else None
+            try:
+                src = open(os.path.join(ltv.REPO, rel), errors="replace").read()
+            except OSError:
+                continue
+            mm = re.search(rx, src, flags=re.S)
+            if not mm:
+                continue
+            try:
+                v = conv(mm) if conv else GP._int(mm.group(1))
+            except Exception:
+                continue
+            if isinstance(v, int) and name in vals and vals[name][0] != v:
+                notes.append("%s: source regex says %d, compiled code says %d" % (name, v, vals[name][0]))
+    except Exception as ex:      # the cross-check is optional
+        notes.append("source cross-check skipped: %s" % ex)
+    return {k: (v[0] if len(v) == 1 else v) for k, v in vals.items()}, notes
+
+
 def run(rep, tier, seed, replay):
+    impl = ltv.build_harness("c06", ["c06.cc", "common/session.cc"], libs=["-lcrypto"])
+    probe, probe_notes = probe_params(impl)
     coq = ltv.coq_build("C06")
     rep.cov.update(obligations=coq["obligations"], discharged=coq["discharged"], checker_cmd=coq["checker_cmd"],
                    theorems=coq["theorems"], axioms_per_theorem=coq["axioms"],
@@ -137,9 +265,9 @@ def run(rep, tier, seed, replay):
                        "modelled not verified: DH / SHA-1 / RC4 (symbolic cells: a byte decrypts to its plaintext iff the receiver's keystream index equals the sender's; sync patterns never occur in other data)",
                        "modelled not verified: write side reduced to 'socket always writable, writes complete' (flags wint/wbf), local bitfield not empty, no DHT, no proxy, not a meta download",
                        "extension-handshake payload assumed valid bencode (parsing belongs to C20); OpenSSL's DH public-key range check as 1 < Y < p-1",
+                       "constants of the model (coq/C06/ParamsProbe.v) are read from the COMPILED code by harness/c06.cc --params; source regexes only as optional cross-check",
                        "harness/common/msepeer.h (independent MSE peer: OpenSSL BIGNUM + SHA-1, own RC4), harness/c06.cc, ocaml/c06_driver.ml token expansion, python oracle props/c06.py"]))
     model = ltv.build_model("C06")
-    impl = ltv.build_harness("c06", ["c06.cc", "common/session.cc"], libs=["-lcrypto"])
     if replay:
         j = json.load(open(replay))
         cases, tags, stats = [j["case"]], ["replay"], {"replay": 1}
@@ -164,12 +292,8 @@ def run(rep, tier, seed, replay):
             samples.append({"case": case[:200], "impl": o[:300]})
         tg = case.rsplit(" #", 1)[1] if " #" in case else tags[i]
         viol = oracle(case, tg, o)
-        if m != norm(o):
+        if norm(m) != norm(o):
             mism += 1
-            ml = re.findall(r"a\d+[pm]?:(\S*)", m)
-            mlast = ml[-1].split(",")[-1] if ml and ml[-1] else ""
-            if not viol and mlast.startswith("f") and lastv == "ok":
-                viol = [("malformed-handshake-accepted", "a handshake the code as modelled rejects (%s) was accepted" % mlast)]
             if viol:
                 kl, text = viol[0]
                 rep.violation("model and implementation differ AND the property fails on the implementation: " + text,
@@ -190,6 +314,8 @@ def run(rep, tier, seed, replay):
                    observations={"unread_handshake_data_parsed_only_with_next_read (lib=late)": late},
                    exhaustive=(tier == "thorough"),
                    exhaustive_scope="thorough: all 15 policies x {in,out} x {plain, MSE 1,2,3} x pad lengths {0,1,255,511,512}^2 x IA on/off, whole-segment" if tier == "thorough" else "")
+    rep.cov.update(params_probe=probe, params_source_crosscheck=probe_notes,
+                   compared_projection="per-segment state.pos.end, ok/closed/alive, attempts and handshake type per attempt, w= (key, VC, select, provide, handshake encrypted?), m= (first message ids), lib= (peer's coalesced messages decoded); error class/code and log text projected out")
     rep.assumptions += ["scripted peer on loopback, library stepped to quiescence after every segment (event_write runs between segments)",
                         "local torrent has some but not all pieces (bitfield is sent); DHT off; no proxy",
                         "pad and key bytes do not contain the 20-byte req1 hash / 8-byte encrypted VC by accident"]
